@@ -1,19 +1,20 @@
 #!/bin/sh
-# usage: tools/import_seed.sh <PROP>   (takes /tmp/wt/<PROP>_{1,2}.patch.diff, _demo.py, _meta.json)
-p="$1"
+# usage: tools/import_seed.sh <PROP> [offset]  (takes /tmp/wt/<PROP>_{1,2}.patch.diff, _demo.py, _meta.json;
+#        stored as seeded/<PROP>-<offset+k>, offset 0 for the first round, 2 for the second, …)
+p="$1"; off="${2:-0}"
 for k in 1 2; do
   [ -f /tmp/wt/${p}_${k}.patch.diff ] || continue
-  d=/verif/seeded/${p}-${k}
+  d=/verif/seeded/${p}-$((off+k))
   mkdir -p $d
   cp /tmp/wt/${p}_${k}.patch.diff $d/patch.diff
   cp /tmp/wt/${p}_${k}_demo.py $d/demo.py
-  python3 - "$p" "$k" <<'PY'
+  python3 - "$p" "$k" "$off" <<'PY'
 import json,sys
-p,k=sys.argv[1],int(sys.argv[2])
+p,k,off=sys.argv[1],int(sys.argv[2]),int(sys.argv[3])
 m=json.load(open(f'/tmp/wt/{p}_meta.json'))
 e=m[k-1] if isinstance(m,list) else m
 out={"property":p,"breaks":e.get("breaks"),"needs":e.get("needs"),"why_tests_pass":e.get("why_tests_pass"),"source":"independent sub-agent given only the property text and a scratch worktree","ran":[]}
-json.dump(out,open(f'/verif/seeded/{p}-{k}/meta.json','w'),indent=1)
+json.dump(out,open(f'/verif/seeded/{p}-{off+k}/meta.json','w'),indent=1)
 PY
 done
 ls /verif/seeded | grep "^$p"
